@@ -10,6 +10,7 @@ CONSTANTS MaxPickles
 Class == {"atom", "p0text", "binlen0", "binlen255", "binlen256", "binlen65536", "ints", "memo", "globals",
           "natural_lo", "natural_hi", "len8",
           "nonascii",
+          "spellings",     \* one pickle with two different byte spellings of equal arguments under the same opcode
           "frames",        \* FRAME lengths the pickler never writes: under-announcing, zero, two frames in one pickle
           "frames_over"}   \* ... and over-announcing (the announced frame reaches into what follows the pickle).  The first pickle
                            \* still ends at its STOP - that is what re-serialising reproduces and what the partition of a stack
